@@ -325,8 +325,20 @@ func (p *parser) parsePrecList(Tklist *[]TokenDef) []PrecDef {
 				IdName = genTempName(IdName)
 				idvalue = charCode(p.current.Value)
 			}
-			// a value tag on the line also goes to a token declared before
-			if !p.TokenDefMap[IdName] || Tag != "" {
+			numbered := false
+			if p.current.Is(Identifier) {
+				// a token number may follow the name (`%left MINUS 301 PLUS`)
+				p.next()
+				if p.current.Is(Number) {
+					if intVar, err := strconv.Atoi(p.current.Value); err == nil {
+						idvalue, numbered = intVar, true
+					}
+				} else {
+					p.backup()
+				}
+			}
+			// a value tag or a number on the line also goes to a token declared before
+			if !p.TokenDefMap[IdName] || Tag != "" || numbered {
 				id := Idendity{
 					Tag: Tag,
 					// noname need do for sepical.
